@@ -118,7 +118,8 @@ impl G<'_> {
     }
 }
 
-pub fn generate(rng: &mut Rng, idx: u64) -> World {
+/// the base internet shared by the generic and the answer-filter worlds
+fn base(rng: &mut Rng) -> G<'_> {
     let limits = [8u8, 10, 12];
     let w = World {
         roots: vec![],
@@ -233,6 +234,23 @@ pub fn generate(rng: &mut Rng, idx: u64) -> World {
     for z in g.slds.clone() {
         let t = g.rng.pick(&g.slds).clone();
         g.add(&z, &format!("xalias.{z}"), "CNAME", &format!("www.{t}"));
+    }
+    g
+}
+
+/// The six limit values of the limit-variation schedule (DESIGN: small, default, u8::MAX).
+pub const LIMIT_VALUES: &[u8] = &[1, 2, 3, 8, 24, 255];
+
+pub fn generate(rng: &mut Rng, idx: u64) -> World {
+    let mut g = base(rng);
+    // every fifth world runs under a (recursion_limit, ns_recursion_limit) pair of the limit
+    // schedule instead of 8..12 (a function of the index: the PRNG stream, hence the graph, is
+    // the same as without it)
+    if idx % 5 == 4 {
+        let p = (idx / 5) as usize % (LIMIT_VALUES.len() * LIMIT_VALUES.len());
+        g.w.opts.recursion_limit = LIMIT_VALUES[p % LIMIT_VALUES.len()];
+        g.w.opts.ns_recursion_limit = LIMIT_VALUES[p / LIMIT_VALUES.len()];
+        g.tag("limit-schedule");
     }
 
     // ---- a few genuine queries first
@@ -444,7 +462,7 @@ fn hostile(g: &mut G, kind: &str, section: u8, probes: &mut Vec<(String, String)
         .w
         .servers
         .iter()
-        .filter(|s| s.zones.len() == 1 && s.zones[0] != "." && s.ladder.is_empty() && s.sink == 0 && !s.silent && !s.ip.starts_with("100.64.0.") && !s.ip.starts_with("2001:db8:dead"))
+        .filter(|s| s.zones.len() == 1 && s.zones[0] != "." && s.ladder.is_empty() && s.sink == 0 && !s.silent && !s.ip.starts_with("100.64.0.") && !s.ip.starts_with("2001:db8:dead") && !s.ip.starts_with("198.18.") && !s.ip.starts_with("2001:db8:af:"))
         .filter(|s| g.slds.contains(&s.zones[0]) || g.solid.contains(&s.zones[0]) || g.tlds.contains(&s.zones[0]))
         .map(|s| (s.ip.clone(), s.zones[0].clone()))
         .collect();
@@ -565,7 +583,7 @@ fn hostile(g: &mut G, kind: &str, section: u8, probes: &mut Vec<(String, String)
             }
         }
         let period = *g.rng.pick(&[1u32, 1, 2]);
-        let inj = Inj { m, kind: kind.to_string(), section, on: on.clone(), only_qname, period, recs, cause_owner };
+        let inj = Inj { m, kind: kind.to_string(), section, on: on.clone(), only_qname, period, recs, cause_owner, mode: String::new() };
         g.w.server_mut(&ip).inj.push(inj);
         if want_sink {
             let s = g.w.server_mut(&evil);
@@ -588,4 +606,215 @@ fn hostile(g: &mut G, kind: &str, section: u8, probes: &mut Vec<(String, String)
         g.tag("hostile");
         return;
     }
+}
+
+// ---------------------------------------------------------------------------------------------
+// answer-filter worlds
+//
+// Address plan (all inside documentation / benchmarking space, never used by the base internet):
+//   deny_answers   198.18.0.0/15, 2001:db8:af::/48     (sometimes also the marker ranges)
+//   allow_answers  198.18.200.0/24, 2001:db8:af:a110::/64  (override inside the denied nets)
+//   deny_server    100.64.0.0/10, 2001:db8:dead::/48 (as everywhere) + 198.18.99.0/24,
+//                  2001:db8:af:dead::/64 (inside the answer-denied nets: denied by both filters)
+// so that an address of every filter class exists in both families:
+//   ans-deny   198.18.7.n    / 2001:db8:af::n         contactable if it ever got through
+//   ans-allow  198.18.200.n  / 2001:db8:af:a110::n    permitted by the override: returned + contacted
+//   srv-deny   100.64.0.n    / 2001:db8:dead::n       may be returned, never contacted
+//   both-deny  198.18.99.n   / 2001:db8:af:dead::n
+
+pub const AF_ELEMS: &[&str] = &["af-glue", "af-glue-ooz", "af-host", "af-moved"];
+pub const AF_KINDS: &[&str] = &["referral", "answer", "nodata", "nxdomain"];
+
+fn af_addr(class: &str, v6: bool, n: u32) -> String {
+    match (class, v6) {
+        ("ans-deny", false) => format!("198.18.7.{n}"),
+        ("ans-deny", true) => format!("2001:db8:af::{n:x}"),
+        ("ans-allow", false) => format!("198.18.200.{n}"),
+        ("ans-allow", true) => format!("2001:db8:af:a110::{n:x}"),
+        ("srv-deny", false) => format!("100.64.0.{n}"),
+        ("srv-deny", true) => format!("2001:db8:dead::{n:x}"),
+        (_, false) => format!("198.18.99.{n}"),
+        (_, true) => format!("2001:db8:af:dead::{n:x}"),
+    }
+}
+
+/// `idx` rotates filter class x element x section x family x response kind.
+pub fn generate_af(rng: &mut Rng, idx: u64) -> World {
+    let mut g = base(rng);
+    let class = crate::oracle::AF_CLASSES[(idx % 4) as usize];
+    let elem = AF_ELEMS[(idx / 4 % 4) as usize];
+    let section = (idx / 16 % 3) as u8;
+    let v6 = idx / 48 % 2 == 1;
+    let lead_kind = AF_KINDS[(idx / 96 % 4) as usize];
+
+    g.w.opts.deny_answers = vec!["198.18.0.0/15".into(), "2001:db8:af::/48".into()];
+    if g.rng.chance(1, 3) {
+        // the marker ranges too: every hostile record then also carries an answer-denied address
+        g.w.opts.deny_answers.push("203.0.113.0/24".into());
+        g.w.opts.deny_answers.push("2001:db8:bad::/48".into());
+        g.tag("af-markers-denied");
+    }
+    if class == "ans-allow" || g.rng.bool() {
+        g.w.opts.allow_answers = vec!["198.18.200.0/24".into(), "2001:db8:af:a110::/64".into()];
+    }
+    g.w.opts.deny_server.push("198.18.99.0/24".into());
+    g.w.opts.deny_server.push("2001:db8:af:dead::/64".into());
+
+    let all_zones: Vec<String> = g.slds.iter().chain(g.solid.iter()).cloned().collect();
+    let z = g.rng.pick(&all_zones).clone();
+    g.q(&format!("www.{z}"), "A");
+
+    let n = g.rng.urange(1, 60) as u32;
+    let x = af_addr(class, v6, n);
+    let at = G::addr_type(&x);
+    let m = g.marker();
+    let mut on: Vec<String> = vec![lead_kind.to_string()];
+    for k in AF_KINDS {
+        if *k != lead_kind && g.rng.chance(1, 3) {
+            on.push(k.to_string());
+        }
+    }
+    // (injector address, its zone, in-bailiwick record it sprinkles, only_qname, mode)
+    let injector: Option<(String, String)>;
+    let mut inj_rec: Option<Rec> = None;
+    let mut only_qname = String::new();
+    let mut mode = String::new();
+    let mut inj_section = section;
+    let mut extra_q: Vec<(String, String)> = vec![];
+    match elem {
+        "af-glue" | "af-glue-ooz" => {
+            let p = g.pick_solid();
+            let c = format!("afz.{p}");
+            let others: Vec<String> = g.solid.iter().filter(|h| **h != p && !is_sub(h, &c)).cloned().collect();
+            let ooz = elem == "af-glue-ooz" && !others.is_empty();
+            let nsn = if ooz { format!("ns-af.{}", g.rng.pick(&others)) } else { format!("ns1.{c}") };
+            g.add(&p, &c, "NS", &nsn);
+            g.add(&c, &c, "NS", &nsn);
+            let host_zone = if ooz {
+                let h = parent_of(&nsn);
+                g.add(&h, &nsn, at, &x);
+                h
+            } else {
+                g.add(&p, &nsn, at, &x); // glue
+                g.add(&c, &nsn, at, &x);
+                p.clone()
+            };
+            g.new_server(&x, &[&c]);
+            if g.rng.bool() {
+                // a second, ordinary server: the zone stays resolvable without the filtered address
+                let ip = g.srv_ip(false);
+                let ns2 = format!("ns2.{c}");
+                g.add(&p, &c, "NS", &ns2);
+                g.add(&p, &ns2, "A", &ip);
+                g.add(&c, &c, "NS", &ns2);
+                g.add(&c, &ns2, "A", &ip);
+                g.new_server(&ip, &[&c]);
+                g.tag("af-second-ns");
+            }
+            g.hosts(&c);
+            g.q(&format!("www.{c}"), "A");
+            g.q(&c, "NS");
+            g.q(&nsn, at);
+            extra_q.push((format!("mail.{c}"), "AAAA".into()));
+            extra_q.push((c.clone(), "NS".into()));
+            extra_q.push((format!("www.{c}"), "A".into()));
+            // the server that publishes the address also repeats it in other responses
+            let ip = g.w.servers.iter().find(|s| s.zones.iter().any(|zz| *zz == host_zone) && s.sink == 0).map(|s| s.ip.clone());
+            injector = ip.map(|ip| (ip, host_zone.clone()));
+            inj_rec = Some(Rec::new(&nsn, at, &x));
+            g.tag(if ooz { "af-glue-ooz" } else { "af-glue" });
+        }
+        "af-host" => {
+            let home = g.pick_solid();
+            let o = format!("afh.{home}");
+            if g.rng.bool() {
+                g.add(&home, &o, at, &x);
+            }
+            let ip = g.w.servers.iter().find(|s| s.zones.iter().any(|zz| *zz == home)).map(|s| s.ip.clone());
+            injector = ip.map(|ip| (ip, home.clone()));
+            inj_rec = Some(Rec::new(&o, at, &x));
+            extra_q.push((o.clone(), at.to_string()));
+            extra_q.push((o.clone(), "A".to_string()));
+            g.tag("af-host");
+        }
+        _ => {
+            // af-moved: the genuine answer to `afm.<home> <at>` travels in the authority or the
+            // additional section; the same name is the name-server name of a delegation whose
+            // server listens on the address
+            let home = g.pick_solid();
+            let o = format!("afm.{home}");
+            g.add(&home, &o, at, &x);
+            let c = format!("afmz.{home}");
+            g.add(&home, &c, "NS", &o);
+            g.add(&c, &c, "NS", &o);
+            g.new_server(&x, &[&c]);
+            g.hosts(&c);
+            let ip = g.w.servers.iter().find(|s| s.zones.iter().any(|zz| *zz == home)).map(|s| s.ip.clone());
+            injector = ip.map(|ip| (ip, home.clone()));
+            only_qname = o.clone();
+            mode = "move".into();
+            on = vec!["answer".into()];
+            if inj_section == 0 {
+                inj_section = 1 + (idx / 96 % 2) as u8;
+            }
+            g.q(&o, at);
+            g.q(&format!("www.{c}"), "A");
+            extra_q.push((o.clone(), at.to_string()));
+            extra_q.push((c.clone(), "NS".into()));
+            extra_q.push((format!("mail.{c}"), "AAAA".into()));
+            g.tag("af-moved");
+        }
+    }
+    if let Some((ip, home)) = injector {
+        let cause_owner = inj_rec.as_ref().map(|r| r.owner.clone()).unwrap_or_else(|| only_qname.clone());
+        let period = *g.rng.pick(&[1u32, 1, 2]);
+        let inj = Inj { m, kind: "af".into(), section: inj_section, on: on.clone(), only_qname, period, recs: inj_rec.into_iter().collect(), cause_owner, mode: mode.clone() };
+        g.w.server_mut(&ip).inj.push(inj);
+        if mode.is_empty() {
+            // queries that make the publisher talk in every response kind it decorates
+            let child: Option<String> = g.w.zone(&home).and_then(|z| z.recs.iter().find(|r| r.rtype == "NS" && r.owner != home).map(|r| r.owner.clone()));
+            for k in &on {
+                match k.as_str() {
+                    "answer" => g.q(&format!("www.{home}"), "A"),
+                    "nodata" => g.q(&format!("txt.{home}"), "A"),
+                    "nxdomain" => g.q(&format!("nx{m}.{home}"), "A"),
+                    _ => {
+                        if let Some(c) = &child {
+                            g.q(&format!("www.{c}"), "A");
+                            g.q(c, "NS");
+                        }
+                    }
+                }
+            }
+        }
+    }
+    for (n, t) in extra_q {
+        g.w.queries.push((n, t)); // repeats are intended (cache)
+    }
+    g.tag("af");
+    g.tag(&format!("af-class/{class}"));
+    g.tag(if v6 { "af-v6" } else { "af-v4" });
+
+    // mixture: a graph pathology and / or an ordinary (out-of-bailiwick) injection on top
+    if g.rng.chance(1, 3) {
+        let f = *g.rng.pick(FEATURES);
+        if f != "denied-answer" {
+            feature(&mut g, f);
+        }
+    }
+    if g.rng.chance(1, 2) {
+        let mut probes: Vec<(String, String)> = vec![];
+        let combo = g.rng.usize_below(24);
+        hostile(&mut g, KINDS[combo % 8], (combo / 8) as u8, &mut probes);
+        for (n, t) in probes {
+            g.q(&n, &t);
+        }
+    }
+    let n_first = g.w.queries.len();
+    for _ in 0..g.rng.urange(1, 3) {
+        let i = g.rng.usize_below(n_first);
+        let e = g.w.queries[i].clone();
+        g.w.queries.push(e);
+    }
+    g.w
 }
